@@ -43,12 +43,12 @@ var connIPs = []string{"9.9.9.1", "9.9.9.1", "9.9.9.2"}
 var ips = []string{"9.9.9.1", "9.9.9.2"}
 
 type connModel struct {
-	chal      string   // latest unconsumed challenge issued on this connection
-	oldChals  []string // replaced or consumed challenges
-	authed    int64    // 0 = not authenticated
+	chal      string         // latest unconsumed challenge issued on this connection
+	oldChals  []string       // replaced or consumed challenges
+	authed    int64          // 0 = not authenticated
 	ctrlFor   map[int64]bool // identities this connection ever earned (proof or fresh issuance)
-	accepted  []string // responses that were accepted (for replay)
-	acceptedC []string // their clients
+	accepted  []string       // responses that were accepted (for replay)
+	acceptedC []string       // their clients
 }
 
 type world struct {
@@ -61,6 +61,7 @@ type world struct {
 	banned  map[string]bool
 	black   map[string]bool
 	issued  map[int64]bool // identities issued by first-connect during the run
+	keyless map[int64]bool // registered clients without a stored secret
 	dead    [nConns]bool
 }
 
@@ -72,7 +73,7 @@ func newWorld() (*world, error) {
 	if err != nil {
 		return nil, err
 	}
-	w := &world{srv: srv, ids: map[string]int64{}, secrets: map[int64]string{}, expired: map[int64]bool{}, banned: map[string]bool{}, black: map[string]bool{}, issued: map[int64]bool{}}
+	w := &world{srv: srv, ids: map[string]int64{}, secrets: map[int64]string{}, expired: map[int64]bool{}, banned: map[string]bool{}, black: map[string]bool{}, issued: map[int64]bool{}, keyless: map[int64]bool{}}
 	for _, name := range []string{"A", "B", "E"} {
 		c, err := srv.Cloud.GenerateAnonymousCredentials()
 		if err != nil {
@@ -81,8 +82,27 @@ func newWorld() (*world, error) {
 		w.ids[name] = c.ID
 		w.secrets[c.ID] = c.SecretKeyPlaintext
 	}
+	// K: an un-migrated legacy client whose record carries no encrypted secret: nobody can prove
+	// possession of its key, so it can never be authenticated by challenge-response
+	{
+		c, err := srv.Cloud.GenerateAnonymousCredentials()
+		if err != nil {
+			return nil, err
+		}
+		cr := repos.NewClientConfigRepository(srv.Repo)
+		cfg, err := cr.GetConfig(c.ID)
+		if err != nil {
+			return nil, err
+		}
+		cfg.SecretKeyEncrypted = ""
+		if err := cr.UpdateConfig(cfg); err != nil {
+			return nil, err
+		}
+		w.ids["K"] = c.ID
+		w.keyless[c.ID] = true
+	}
 	w.ids["U"] = 87654321
-	for w.ids["U"] == w.ids["A"] || w.ids["U"] == w.ids["B"] || w.ids["U"] == w.ids["E"] {
+	for w.ids["U"] == w.ids["A"] || w.ids["U"] == w.ids["B"] || w.ids["U"] == w.ids["E"] || w.ids["U"] == w.ids["K"] {
 		w.ids["U"]++
 	}
 	// E is expired from the start
@@ -254,12 +274,18 @@ func (w *world) step(a Action) (*fail, string) {
 					}
 				}
 			}
+		case "emptykey":
+			c := m.chal
+			if c == "" {
+				c = "never-issued"
+			}
+			resp = miniserver.ComputeResponse("", c)
 		default:
 			resp = "zz-not-hex"
 		}
 		req = &packet.HandshakeRequest{ClientID: id, Version: "2.0", Protocol: "tcp", ConnectionType: a.Type, ChallengeResponse: resp}
 		tag = "phase2:" + a.Resp
-		if !gate && known && !w.expired[id] {
+		if !gate && (known || w.keyless[id]) && !w.expired[id] {
 			if m.chal != "" {
 				consumes = true
 				if valid {
@@ -315,6 +341,8 @@ func (w *world) step(a Action) (*fail, string) {
 			why = "expired-client"
 		case a.Kind == "phase2" && a.Client == "U":
 			why = "unknown-client"
+		case a.Kind == "phase2" && a.Client == "K":
+			why = "client-without-stored-secret/response=" + a.Resp
 		case a.Kind == "phase2":
 			why = "response=" + a.Resp
 			if m.chal == "" {
@@ -336,7 +364,7 @@ func (w *world) step(a Action) (*fail, string) {
 	}
 	// challenge bookkeeping from the real response
 	if a.Kind == "phase1" && resp != nil && resp.NeedResponse && resp.Challenge != "" {
-		if gate || w.expired[w.ids[a.Client]] || a.Client == "U" {
+		if gate || w.expired[w.ids[a.Client]] || a.Client == "U" || a.Client == "K" {
 			return &fail{"C03/challenge-issued-to-ineligible/" + a.Client, fmt.Sprintf("action %+v got a challenge", a)}, tag
 		}
 		if m.chal != "" {
@@ -458,10 +486,10 @@ func genAction(t *rapid.T) Action {
 	case "first":
 		a.Token = rapid.SampledFrom([]string{"new-client", "anonymous:x", "other", ""}).Draw(t, "token")
 	case "phase1":
-		a.Client = rapid.SampledFrom([]string{"A", "A", "B", "B", "E", "U"}).Draw(t, "client")
+		a.Client = rapid.SampledFrom([]string{"A", "A", "B", "B", "E", "U", "K"}).Draw(t, "client")
 	case "phase2":
-		a.Client = rapid.SampledFrom([]string{"A", "A", "B", "B", "E", "U"}).Draw(t, "client")
-		a.Resp = rapid.SampledFrom([]string{"valid", "valid", "valid", "stale", "foreign", "othersecret", "replay", "garbage"}).Draw(t, "resp")
+		a.Client = rapid.SampledFrom([]string{"A", "A", "B", "B", "E", "U", "K"}).Draw(t, "client")
+		a.Resp = rapid.SampledFrom([]string{"valid", "valid", "valid", "stale", "foreign", "othersecret", "replay", "garbage", "emptykey"}).Draw(t, "resp")
 	case "ban", "blacklist":
 		a.IP = rapid.IntRange(0, 1).Draw(t, "ip")
 		// keep bans rare so that most sequences still authenticate
@@ -501,6 +529,7 @@ func TestEnumerated(t *testing.T) {
 			}
 		}
 		alpha = append(alpha, Action{Kind: "phase2", Conn: conn, Client: "A", Resp: "valid", Type: "tunnel"})
+		alpha = append(alpha, Action{Kind: "phase2", Conn: conn, Client: "K", Resp: "emptykey", Type: "control"})
 	}
 	alpha = append(alpha, Action{Kind: "ban", IP: 0}, Action{Kind: "expire", Client: "A"})
 	depth := vkit.Pick(3, 4)
